@@ -511,6 +511,9 @@ impl Formatter {
     }
     let result = if self.html {
       format!("<p class=\"mech-paragraph\">{}</p>",src)
+    } else if src.trim_start().starts_with("- ") || src.trim_start().starts_with("-[") || src.trim_start().starts_with("-(") {
+      let indent = src.len() - src.trim_start().len();
+      format!("{}\\{}\n", &src[..indent], &src[indent..])
     } else {
       format!("{}\n",src)
     };
